@@ -251,6 +251,8 @@ def run_case(case):
                     feats.add(str(okey))
                 if pandas_nulls is False:
                     counters["pandas_nulls_false_compared"] = counters.get("pandas_nulls_false_compared", 0) + 1
+        if case["src"] in ("c01", "c08"):
+            _edited_handle(path, df, res, counters)
         res["outcome"] = "ok"
         res["nontrivial"] = n_cmp > 0
         res["features"] = [case["src"], sorted(feats),
@@ -262,5 +264,63 @@ def run_case(case):
             C.cleanup(path)
 
 
+def _answers(pf):
+    return {"columns": [str(c) for c in pf.columns], "cats": {str(k): [repr(v) for v in vs] for k, vs in pf.cats.items()},
+            "dtypes": {str(k): str(v) for k, v in pf.dtypes.items()}, "categories": sorted(str(c) for c in (pf.categories or {})),
+            "index": [str(i) for i in (pf._get_index() or [])], "count": int(pf.count()), "len": len(pf),
+            "rg_rows": [int(rg.num_rows) for rg in pf.row_groups], "info_rows": int(pf.info["rows"]), "info_row_groups": int(pf.info["row_groups"])}
+
+
+def _edited_handle(path, df, res, counters):
+    """A handle that was used (read, statistics) and then edits the dataset itself (write_row_groups, remove_row_groups): its metadata-only
+    answers must be the ones a fresh open gives, and must describe what it then reads."""
+    import fastparquet
+    from fastparquet.writer import reset_row_idx
+    from vf.props import common as C
+    try:
+        pf = fastparquet.ParquetFile(path)
+        pf.to_pandas()
+        _answers(pf)
+        pf.statistics
+    except Exception:
+        counters["edited_handle_warmup_failed"] = counters.get("edited_handle_warmup_failed", 0) + 1
+        return
+    for step in ("write_row_groups", "remove_row_groups"):
+        try:
+            if step == "write_row_groups":
+                data = reset_row_idx(df) if pf._get_index() else df
+                pf.write_row_groups(data, row_group_offsets=[0, max(1, len(data) // 2)] if len(data) > 1 else None)
+            else:
+                if pf.file_scheme == "simple" or len(pf.row_groups) < 2:
+                    continue
+                pf.remove_row_groups(pf.row_groups[0])
+        except Exception as e:
+            counters["edited_handle_edit_refused"] = counters.get("edited_handle_edit_refused", 0) + 1
+            return
+        try:
+            kept = _answers(pf)
+            fresh_pf = fastparquet.ParquetFile(path)
+            fresh = _answers(fresh_pf)
+        except Exception as e:
+            res["failures"].append({"kind": "answers_raised_after_edit_through_the_handle", "step": step, **C.exc_shape(e)})
+            return
+        diff = {k: (kept[k], fresh[k]) for k in kept if kept[k] != fresh[k]}
+        if diff:
+            res["failures"].append({"kind": "edited_handle_answers_differ_from_fresh_open", "step": step,
+                                    "differs": {k: [repr(a)[:120], repr(b)[:120]] for k, (a, b) in list(diff.items())[:4]}})
+        try:
+            got = pf.to_pandas()
+            got_f = fresh_pf.to_pandas()
+        except Exception as e:
+            counters["edited_handle_read_raised"] = counters.get("edited_handle_read_raised", 0) + 1     # C07's business
+            return
+        if len(got) != kept["count"] or sum(kept["rg_rows"]) != kept["count"] or kept["info_rows"] != kept["count"]:
+            res["failures"].append({"kind": "edited_handle_count_prediction", "step": step, "predicted": [kept["count"], sum(kept["rg_rows"]), kept["info_rows"]], "got": len(got)})
+        if [str(c) for c in got.columns] != [str(c) for c in got_f.columns] or [str(d) for d in got.dtypes] != [str(d) for d in got_f.dtypes]:
+            res["failures"].append({"kind": "edited_handle_reads_other_columns_or_dtypes_than_fresh_open", "step": step,
+                                    "kept": [(str(c), str(d)) for c, d in zip(got.columns, got.dtypes)][:8], "fresh": [(str(c), str(d)) for c, d in zip(got_f.columns, got_f.dtypes)][:8]})
+        counters["edited_handle_steps_compared"] = counters.get("edited_handle_steps_compared", 0) + 1
+
+
 def required(tier):
-    return {"optionsets_compared": 1500, "dtype_predictions": 5000, "pandas_nulls_false_compared": 500, "row_group_parts_predicted": 300, "reads_with_dtypes_mapping": 200}
+    return {"optionsets_compared": 1500, "dtype_predictions": 5000, "pandas_nulls_false_compared": 500, "row_group_parts_predicted": 300, "reads_with_dtypes_mapping": 200, "edited_handle_steps_compared": 150}
